@@ -383,21 +383,21 @@ func (e *Engine) modelMath(p *Path, name string, args []Value) ([]Result, bool) 
 		r = math.Sqrt(a)
 	case "Abs":
 		r = math.Abs(a)
-	case "Pow":
+	case "Pow", "Max", "Min":
 		if !okB {
+			if u, isU := args[1].(Undef); isU {
+				return e.one(p, u), true // undefined (float-derived) operand: undefined result
+			}
 			return nil, false
 		}
-		r = math.Pow(a, b)
-	case "Max":
-		if !okB {
-			return nil, false
+		switch name {
+		case "Pow":
+			r = math.Pow(a, b)
+		case "Max":
+			r = math.Max(a, b)
+		default:
+			r = math.Min(a, b)
 		}
-		r = math.Max(a, b)
-	case "Min":
-		if !okB {
-			return nil, false
-		}
-		r = math.Min(a, b)
 	case "IsNaN":
 		return e.one(p, e.BoolC(math.IsNaN(a))), true
 	case "IsInf":
